@@ -787,6 +787,8 @@ def run(rep, ctx):
                 if cn_ == "narrow_result_bounds":
                     rec_.append(tuple(box["mi"].expr(a_, env_, 0) for a_ in call_args(n_)))
                     return 0
+                if cn_ in ("set_result_type", "set_result_var"):
+                    return 0               # other effects of the preprocessor are judged by other rules (F1, G1)
                 if cn_ in ("lb", "ub") and len(call_args(n_)) == 1:
                     return (LB_ if cn_ == "lb" else UB_)[int(box["mi"].expr(call_args(n_)[0], env_, 0))]
                 if cn_ in ("PracticallyMinusInf", "MinusInfty"):
